@@ -51,8 +51,9 @@ pub mod c02;
 pub mod c03;
 pub mod c04;
 pub mod c05;
+pub mod c06;
 
 pub fn all() -> Vec<&'static CheckDef> {
-    vec![&smoke::DEF, &c01::DEF, &c02::DEF, &c03::DEF, &c04::DEF, &c05::DEF]
+    vec![&smoke::DEF, &c01::DEF, &c02::DEF, &c03::DEF, &c04::DEF, &c05::DEF, &c06::DEF]
 }
 pub fn find(id: &str) -> Option<&'static CheckDef> { all().into_iter().find(|d| d.id.eq_ignore_ascii_case(id)) }
